@@ -63,9 +63,15 @@ def run(ctx: Ctx):
         ok = vtx.endswith(").values_type") and ("_rhs_arguments(" in vtx or "_scheme_arguments(" in vtx) and si is not None and const_str(util.canon_of(g).resolve(si)) == ""
         ctx.check(ok, "R14.b", g.key("allocation"), "values = Func.values_type (zeros_like(states))", f"CodeGenerator.{mname}: values_type={vtx}, shape_info={util.ctext(g, si) if si is not None else None}", g.where(tc))
     for qn in ("PythonCodeGenerator._rhs_arguments", "PythonCodeGenerator._scheme_arguments"):
-        g = util.nf(ctx, "codegen/python.py", qn)
-        fc = [c for c in find_calls(g.node, "Func")]
-        vt = const_str(util.canon_of(g).resolve(call_kw(fc[0], "values_type"))) if fc and call_kw(fc[0], "values_type") is not None else None
+        from .c04 import func_fields
+
+        g = sm.func("codegen/python.py", qn)
+        fields, _v = func_fields(ctx, g)
+        vtv = fields.get("values_type") if fields else None
+        if vtv is None or vtv[0] != "c":
+            ctx.undecided("R14.b", g.key("values_type"), f"{qn}: the result allocation expression is not understood", g.where())
+            continue
+        vt = vtv[1]
         ctx.check(vt == "numpy.zeros_like(states, dtype=numpy.float64)", "R14.b", g.key("values_type"), "numpy.zeros_like(states, dtype=numpy.float64)", f"{qn}: values_type is {vt!r}; the result must have the shape of `states` (one column per input column)", g.where())
     from sa import av as _av
 
